@@ -270,13 +270,21 @@ fn cli_pairs(rep: &Report) {
     for l in [0usize, 40, 70000] {
         for pre in [false, true] {
             for (pi, _) in w.iter().enumerate().take(4) {
-                rjobs.push((l, pre, pi));
+                // decoy: 0 none; 1 / 2: KESTREL_NEW_PASSWORD (which only `key change-pass` may read) holds ANOTHER password
+                // while encrypting / while decrypting
+                for decoy in 0..3u8 {
+                    if decoy > 0 && pre {
+                        continue;
+                    }
+                    rjobs.push((l, pre, pi, decoy));
+                }
             }
         }
     }
-    rjobs.par_iter().for_each(|&(l, pre, pi)| {
+    rjobs.par_iter().for_each(|&(l, pre, pi, decoy)| {
         rep.eval(1);
-        rep.nontrivial(format!("cli-rt-{}-{}-{}", l, pre, pi).as_bytes());
+        rep.nontrivial(format!("cli-rt-{}-{}-{}-{}", l, pre, pi, decoy).as_bytes());
+        let other = w[(pi + 1) % 4].1;
         let p = plaintext(rep.seed ^ 0x25, l);
         let attempt = || -> Result<(), String> {
             let sc = Scratch::new();
@@ -285,15 +293,23 @@ fn cli_pairs(rep: &Report) {
                 sc.write("ct.ktl", &vec![b'Z'; 200_000]);
                 sc.write("back.bin", &vec![b'Z'; 200_000]);
             }
-            let o = proc::run(&Cmd::new(&["password", "encrypt", "plain.bin", "-o", "ct.ktl", "--env-pass"]).env("KESTREL_PASSWORD", w[pi].1), &sc.0);
+            let mut ce = Cmd::new(&["password", "encrypt", "plain.bin", "-o", "ct.ktl", "--env-pass"]).env("KESTREL_PASSWORD", w[pi].1);
+            if decoy == 1 {
+                ce = ce.env("KESTREL_NEW_PASSWORD", other);
+            }
+            let o = proc::run(&ce, &sc.0);
             o.well_behaved()?;
             if !o.ok() {
                 return Err(format!("password encrypt failed: {}", o.summary()));
             }
-            let o = proc::run(&Cmd::new(&["password", "decrypt", "ct.ktl", "-o", "back.bin", "--env-pass"]).env("KESTREL_PASSWORD", w[pi].1), &sc.0);
+            let mut cd = Cmd::new(&["password", "decrypt", "ct.ktl", "-o", "back.bin", "--env-pass"]).env("KESTREL_PASSWORD", w[pi].1);
+            if decoy == 2 {
+                cd = cd.env("KESTREL_NEW_PASSWORD", other);
+            }
+            let o = proc::run(&cd, &sc.0);
             o.well_behaved()?;
             if !o.ok() {
-                return Err(format!("password decrypt of the file just written{} failed under the same password: {}", if pre { " (output paths held longer files before)" } else { "" }, o.summary()));
+                return Err(format!("password decrypt of the file just written{}{} failed under the same password: {}", if pre { " (output paths held longer files before)" } else { "" }, match decoy { 1 => " (KESTREL_NEW_PASSWORD held another password while encrypting)", 2 => " (KESTREL_NEW_PASSWORD held another password while decrypting)", _ => "" }, o.summary()));
             }
             if sc.read("back.bin").as_deref() != Some(&p[..]) {
                 return Err(format!("CLI password round trip of {} bytes{} does not return the original bytes", l, if pre { " into pre-existing longer files" } else { "" }));
@@ -302,7 +318,7 @@ fn cli_pairs(rep: &Report) {
         };
         if attempt().is_err() {
             if let Err(e) = attempt() {
-                rep.violation(if pre { "cli/roundtrip-preexisting-output" } else { "cli/roundtrip" }, json!({"kind":"cli-rt","l":l,"pre":pre,"pw":w[pi].1}), e);
+                rep.violation(if pre { "cli/roundtrip-preexisting-output" } else { "cli/roundtrip" }, json!({"kind":"cli-rt","l":l,"pre":pre,"pw":w[pi].1,"decoy":decoy}), e);
             }
         }
     });
